@@ -87,10 +87,10 @@ structure Rel (len : α → Nat) (k : Nat) (s : St α) (sp : Spec α) : Prop whe
   bak : ∀ j, 1 ≤ j → j ≤ k → cont (bget s.fs.bak j) = seg sp.segs j
   isOpen : s.h.isOpen = sp.isOpen
   whenOpen : s.h.isOpen = true → s.fs.live.isSome ∧ s.h.offset = fsize len (cont s.fs.live) ∧
-    s.h.maxBytes = sp.maxBytes ∧ eff s.h.backupCount = k
+    s.h.maxBytes = sp.maxBytes ∧ k ≤ eff s.h.backupCount
 
 theorem rel_rotate {len : α → Nat} {k : Nat} {h : RH} {fs : FS α} {sp : Spec α}
-    (hl : fs.live.isSome) (hk : eff h.backupCount = k)
+    (hl : fs.live.isSome) (hk : k ≤ eff h.backupCount)
     (rl : cont fs.live = seg sp.segs 0)
     (rb : ∀ j, 1 ≤ j → j ≤ k → cont (bget fs.bak j) = seg sp.segs j)
     (ho : sp.isOpen = true) (hm : h.maxBytes = sp.maxBytes) :
@@ -112,14 +112,15 @@ theorem rel_rotate {len : α → Nat} {k : Nat} {h : RH} {fs : FS α} {sp : Spec
 theorem fsize_append (len : α → Nat) (a b : List α) : fsize len (a ++ b) = fsize len a + fsize len b := by
   simp [fsize]
 
-/-- every init of the history keeps the same number of backups `k` -/
-def ConstK (k : Nat) : List (Op α) → Prop
+/-- every init of the history keeps at least `k` backups (`k ≤ max(backup_count,1)`);
+with one configuration, `k` is the number of backups kept -/
+def Keeps (k : Nat) : List (Op α) → Prop
   | [] => True
-  | .init _ bc :: ops => eff bc = k ∧ ConstK k ops
-  | _ :: ops => ConstK k ops
+  | .init _ bc :: ops => k ≤ eff bc ∧ Keeps k ops
+  | _ :: ops => Keeps k ops
 
 theorem rel_step {len : α → Nat} {k : Nat} {s : St α} {sp : Spec α} (r : Rel len k s sp)
-    (op : Op α) (hop : ∀ mb bc, op = .init mb bc → eff bc = k) :
+    (op : Op α) (hop : ∀ mb bc, op = .init mb bc → k ≤ eff bc) :
     Rel len k (step len s op) (specStep len sp op) := by
   cases op with
   | close =>
@@ -164,20 +165,20 @@ theorem rel_step {len : α → Nat} {k : Nat} {s : St α} {sp : Spec α} (r : Re
       simp only [ho, ho']
       exact ⟨r.live, r.bak, r.isOpen, r.whenOpen⟩
 
-theorem constK_cons {k : Nat} {op : Op α} {ops : List (Op α)} (h : ConstK k (op :: ops)) :
-    (∀ mb bc, op = .init mb bc → eff bc = k) ∧ ConstK k ops := by
+theorem keeps_cons {k : Nat} {op : Op α} {ops : List (Op α)} (h : Keeps k (op :: ops)) :
+    (∀ mb bc, op = .init mb bc → k ≤ eff bc) ∧ Keeps k ops := by
   cases op with
   | init mb bc => exact ⟨fun _ _ e => by cases e; exact h.1, h.2⟩
   | write l => exact ⟨fun _ _ e => (nomatch e), h⟩
   | close => exact ⟨fun _ _ e => (nomatch e), h⟩
 
 theorem rel_run {len : α → Nat} {k : Nat} (ops : List (Op α)) : ∀ {s : St α} {sp : Spec α},
-    Rel len k s sp → ConstK k ops → Rel len k (run len s ops) (specRun len sp ops) := by
+    Rel len k s sp → Keeps k ops → Rel len k (run len s ops) (specRun len sp ops) := by
   induction ops with
   | nil => intro s sp r _; exact r
   | cons op ops ih =>
     intro s sp r hc
-    obtain ⟨h1, h2⟩ := constK_cons hc
+    obtain ⟨h1, h2⟩ := keeps_cons hc
     exact ih (rel_step r op h1) h2
 
 /-- a directory as found, with no handler open, is related to its own segmentation -/
